@@ -77,6 +77,19 @@ def cases():
     # unqualified calls take the same route
     out.append(("unqualified i1", prog("    println(i1(12345));\n"), "12345\nEND\n", "ok", None))
     out.append(("unqualified d2_1", prog("    double x = 2.25;\n    double r = d2_1(9.5, x);\n    println(r == x);\n"), "1\nEND\n", "ok", None))
+    # arguments that are themselves foreign calls, or Cb calls that call into the foreign module (argument evaluation is
+    # re-entrant: the inner call must not disturb the arguments the outer call has already collected)
+    out.append(("nested qualified i2", prog("    println(echo.i2_0(9, echo.i1(20)), echo.i2_1(9, echo.i1(20)), echo.i2_0(echo.i1(7), 3), echo.i2_1(echo.i1(7), echo.i1(8)));\n"),
+                "9 20 7 8\nEND\n", "ok", None))
+    out.append(("nested qualified d2", prog("    double a = echo.d2_0(9.5, echo.d1(0.25));\n    double b = echo.d2_1(9.5, echo.d1(0.25));\n    double c = echo.d4_2(1.5, echo.d1(2.5), echo.d2_1(0.5, 3.5), echo.d1(4.5));\n    println(a == 9.5, b == 0.25, c == 3.5);\n"),
+                "1 1 1\nEND\n", "ok", None))
+    out.append(("nested unqualified", prog("    println(i2_0(9, i1(20)), i2_1(9, i1(20)), i2_1(i1(7), i1(8)));\n    double b = d2_1(9.5, d1(0.25));\n    println(b == 0.25);\n"),
+                "9 20 8\n1\nEND\n", "ok", None))
+    out.append(("nested mixed", prog("    println(echo.i2_1(i1(1), i2_0(echo.i1(5), 6)), i2_0(echo.i1(3), echo.i1(4)));\n    long r = echo.li(echo.i2_1(1, 2));\n    println(r);\n"),
+                "5 3\n%d\nEND\n" % (2 * 4294967296 + 7), "ok", None))
+    out.append(("nested through a Cb function", DECLS + "int twice_i(int v) { return echo.i1(v) + echo.i1(v); }\ndouble keep_d(double v) { return d1(v); }\nint main() {\n"
+                "    println(echo.i2_0(1, twice_i(4)), echo.i2_1(1, twice_i(4)));\n    double b = echo.d2_1(1.0, keep_d(4.5));\n    println(b == 4.5);\n    println(\"END\");\n    return 0;\n}\n",
+                "1 8\n1\nEND\n", "ok", None))
     # unsupported signatures: a diagnostic and a non-zero exit, and the native function must not have run
     for name, call in [("u_iii", "echo.u_iii(1, 2, 3)"), ("u_ddd", "echo.u_ddd(1.5, 2.5, 3.5)"), ("u_ll", "echo.u_ll(5)"),
                        ("u_id", "echo.u_id(1.5)"), ("u_ff", "echo.u_ff(1.5)"), ("u_dl", "echo.u_dl(5)"), ("u_l0", "echo.u_l0()"),
